@@ -913,6 +913,15 @@ def check_signature_subject(prog: Program, rep: Report):
                 if c[2][:1] != (obj,):
                     bad.append(T.show(c)[:80])
     rep.check(n > 0 and not bad, "R10.5", sig.qualname, sig.loc, "inspect.signature is applied to the callable itself", f"inspect.signature is applied to something other than the callable that will be called ({bad[:1]}): for a bound method of a decorated function the unwrapped function still has `self`, so every positional converter shifts by one", detail="subject")
+    # functools.cache keys on hash/== of the callable.  Functions and methods compare by identity, but the scope includes
+    # callable *instances*: a NamedTuple or frozen dataclass with __call__ compares by value, a dataclass(eq=True) is unhashable
+    memo = prog.memoised_functions()
+    for qn in (f"{MOD}._get_binding", "typelib.py.inspection.cached_signature"):
+        if qn in memo:
+            loc = prog.functions[qn].loc if qn in prog.functions else sig.loc
+            rep.violated("R10.5", qn, loc, f"{qn.rsplit('.', 1)[1]} is memoised by {memo[qn].split('(')[0]}, i.e. keyed by == / hash of the callable: two callable instances that compare equal (NamedTuples of different classes with equal fields) share one binding, and an unhashable callable instance (a dataclass with the default eq) cannot be bound at all", detail="key-identity")
+        else:
+            rep.held("R10.5", qn, sig.loc, "not memoised on equality of the callable", detail="key-identity")
     insp = prog.module("typelib.py.inspection")
     if "cached_signature" in insp.assigns:
         cs = P.module_term(prog, insp, "cached_signature")
